@@ -919,9 +919,6 @@ func cacheViewFromFile(
 		var fileInfo *FileInfo = nil
 		if isCached {
 			fileInfo = view.FileInfo
-			if err = scope.Tx.CachedViews.Dispose(scope.Tx.FileContainer, fileInfo.IdentifiedPath()); err != nil {
-				return
-			}
 		} else {
 			fileInfo, err = NewFileInfo(fileIdentifier, scope.Tx.Flags.Repository, options, scope.Tx.Flags.ImportOptions.Format)
 			if err != nil {
@@ -939,6 +936,13 @@ func cacheViewFromFile(
 				fileIdentifier.Literal = fileInfo.Path
 				err = ConvertFileHandlerError(e, fileIdentifier)
 				return
+			}
+			if isCached {
+				// The table that was read without a lock is given up only now that the lock has been obtained.
+				if err = scope.Tx.CachedViews.Dispose(scope.Tx.FileContainer, fileInfo.IdentifiedPath()); err != nil {
+					err = appendCompositeError(err, scope.Tx.FileContainer.Close(h))
+					return
+				}
 			}
 			fileInfo.Handler = h
 			fp = h.File()
